@@ -29,7 +29,7 @@ The check
      meshes created in every order: mesh id and count; a coefficient on the mixed space over a
      MeshSequence: two mesh ids and a count).  The histories are PLACEMENTS (Boundaries of
      SigCounters.tla): for every counted class the counter stands at B - q for a digit boundary B in
-     {10, 100, 1000} and q = 0 .. (objects of the class the script creates) - 1, for ALL classes at
+     {10, 100 (, 1000: thorough)} and q = 0 .. (objects of the class the script creates) - 1, for ALL classes at
      once -- every digit-length pattern of the numbers one program embeds, crossed with every
      creation order (the scripts).  TLC proves SigInvariant on the intended machine over that space
      and prints every behaviour with its model signature; EVERY behaviour is replayed on the real
@@ -1028,7 +1028,7 @@ FAM_SMALL = dict(mesh=2, const=2, coef=1, vcoef=1, geo=1, index=1, idx=1, sum=1,
 # (Boundaries of SigCounters.tla) over all counters at once
 FAM_CROSS = dict(mesh=2, const=2, scoef=1, comp=1, sum=1, prod=1)
 FAM_CROSS_T = dict(mesh=2, const=3, scoef=1, comp=1, sum=1, prod=2)
-CROSS_BOUNDARIES = [10, 100, 1000]
+CROSS_BOUNDARIES = {"quick": [10, 100], "thorough": [10, 100, 1000]}
 
 
 def real_typecodes():
@@ -1817,7 +1817,7 @@ def plan_cross(ctx, transcription, w):
     comparator, cmp_of, zerosig = transcription
     quick = ctx.tier == "quick"
     fam, steps, kinds = (FAM_CROSS, 6, ["Mesh", "Constant"]) if quick else (FAM_CROSS_T, 7, ["Mesh", "Constant", "Coefficient"])
-    kw = dict(workers=w, offsets=[], boundaries=CROSS_BOUNDARIES, bump_kinds=kinds)
+    kw = dict(workers=w, offsets=[], boundaries=CROSS_BOUNDARIES[ctx.tier], bump_kinds=kinds)
     combined = comparator == "numeric" and zerosig == "renumbered"
     inv = ["EmitInv", "TypeOK", "RunAgrees"] + (["SigInvariant"] if combined else [])
     emit = Job("emit/cross-family", fam, comparator, zerosig, len(kinds), steps, emit=True, cmp_of=cmp_of, invariants=inv, **kw)
@@ -1855,7 +1855,7 @@ def cross_chains(ctx, job, rng):
     ops = {i["op"] for v in by_script.values() for i in v["script"]}
     if not multi or "scoef" not in ops or not any(len({i["a"] for i in v["script"] if i["op"] == "const"}) > 1 for v in by_script.values()):
         raise MachineryError(f"{job.label}: vacuous (behaviours with several shifted counters: {multi}, instructions {sorted(ops)})")
-    ctx.cov["cross_family"] = {"scripts": len(by_script), "behaviours": n_beh, "behaviours_with_several_counters_placed": multi, "boundaries": CROSS_BOUNDARIES, "counters_placed": job.bump_kinds}
+    ctx.cov["cross_family"] = {"scripts": len(by_script), "behaviours": n_beh, "behaviours_with_several_counters_placed": multi, "boundaries": list(job.boundaries), "counters_placed": job.bump_kinds}
     # the scripts that are replayed (thorough: a seeded selection within a budget of runs)
     keys = sorted(by_script)
     rng.shuffle(keys)
@@ -1890,7 +1890,7 @@ def cross_chains(ctx, job, rng):
         o = dict(zip(KINDS5, off))
         used = [K for K in KINDS5 if made[k][K]]
         for ch in real:
-            if len(ch["steps"]) < len(CROSS_BOUNDARIES) + 1 and all(o[K] >= ch["floor"][K] for K in used):
+            if len(ch["steps"]) < len(job.boundaries) + 1 and all(o[K] >= ch["floor"][K] for K in used):
                 ch["steps"].append({"program": progs[k], "source": "tlc-placed", "targets": {K: o[K] for K in used}, "exact": "targets"})
                 for K in used:
                     ch["floor"][K] = o[K] + made[k][K]
